@@ -59,6 +59,8 @@ pub enum P {
     StreamUntil(S, S),
     /// async: main spawns child1 (req a -> event; then spawns child2 (req b -> event)) and finishes
     SpawnChain(S, S),
+    /// async: req a; then the task fires its own command's abort handle and emits nothing
+    QuietSelfAbort(S),
     /// `request(a).map(f).then_send(got)`
     ReqMap(S),
     /// `stream(a).map(f).then_send(got)`
@@ -142,7 +144,7 @@ impl P {
 
     pub fn sites_mut(&mut self) -> Vec<&mut S> {
         match self {
-            P::Event(a) | P::Notify(a) | P::Req(a) | P::Stream(a) | P::ReqMap(a) | P::StreamMap(a)
+            P::Event(a) | P::Notify(a) | P::Req(a) | P::Stream(a) | P::ReqMap(a) | P::StreamMap(a) | P::QuietSelfAbort(a)
             | P::SelfWake(a, _) | P::Trigger(a, _) | P::SiblingAbort(a, _) => vec![a],
             P::ReqReq(a, b) | P::ReqStream(a, b) | P::StreamReq(a, b) | P::StreamStream(a, b)
             | P::Join(a, b) | P::Select(a, b) | P::SpawnJoin(a, b) | P::SpawnAfter(a, b) | P::Burst(a, b) | P::Channel(a, b)
@@ -247,6 +249,7 @@ pub fn async_atoms() -> Vec<P> {
         P::JoinReq(s0(), s0(), s0()),
         P::AbortSpawned(s0(), s0()),
         P::SelfAbort(s0(), s0()),
+        P::QuietSelfAbort(s0()),
         P::StreamUntil(s0(), s0()),
         P::SpawnChain(s0(), s0()),
         P::HandOff(s0(), s0(), s0()),
